@@ -774,6 +774,71 @@ def gen_seq_random(rng, n, lengths=(4, 5, 6, 8)):
                           rng.choice(["ss", "aa", "sa", "as"]), rng.choice(["w1", "b3", "h4", "p5", "u8", "z0"]))
 
 
+def gen_seq_futs(caps=(0, 1, 2), ks=(3, 4), flavs=("aa",)):
+    """Single-threaded sequences with several pending futures of one side (the only way one thread can build a
+    waiting list of length >= 2): k futures are created and polled, every ordered choice of 1..2 of them is
+    cancelled (dropped), then the other side serves what is left with a rotating variant and every surviving future
+    is polled again; an observing suffix follows."""
+    import itertools
+    nvar = 0
+    for cap in caps:
+        for flav in flavs:
+            for side in "sr":
+                for k in ks:
+                    for ncancel in (1, 2):
+                        for cancel in itertools.permutations(range(k), ncancel):
+                            nvar += 1
+                            ops = []
+                            m = 0
+                            if side == "s":
+                                for _ in range(cap):
+                                    m += 1
+                                    ops.append({"op": "try_send", "h": 0, "m": m})
+                                for f in range(k):
+                                    m += 1
+                                    ops += [{"op": "asend_new", "h": 0, "f": f, "m": m}, {"op": "poll", "f": f, "w": 1}]
+                            else:
+                                for f in range(k):
+                                    if f == 1 and nvar % 3 == 0:
+                                        ops += [{"op": "stream_new", "h": 1, "f": f}, {"op": "poll", "f": f, "w": 1}]
+                                    else:
+                                        ops += [{"op": "arecv_new", "h": 1, "f": f}, {"op": "poll", "f": f, "w": 1}]
+                            for c in cancel:
+                                ops.append({"op": "drop_fut", "f": c})
+                            left = [f for f in range(k) if f not in cancel]
+                            # serve: one call of the other side per survivor (+ the buffer), polling as we go
+                            if side == "s":
+                                rv = [{"op": "try_recv", "h": 1}, {"op": "try_recv_realtime", "h": 1}, {"op": "recv_timeout", "h": 1, "d": 0},
+                                      {"op": "recv", "h": 1}, {"op": "iter_next", "h": 1}]
+                                if nvar % 4 == 0:
+                                    ops.append({"op": "drain_into", "h": 1, "pre": 0, "spare": 0})
+                                else:
+                                    for i in range(cap + 1):
+                                        ops.append(dict(rv[(nvar + i) % len(rv)]))
+                                for f in left:
+                                    ops.append({"op": "poll", "f": f, "w": 2})
+                                if nvar % 4 != 0:
+                                    for i in range(len(left) - 1):
+                                        ops.append(dict(rv[(nvar + i + 1) % len(rv)]))
+                                        if i % 2 == 1:
+                                            ops += [{"op": "poll", "f": f, "w": 2} for f in left]
+                            else:
+                                sv = [{"op": "try_send", "h": 0}, {"op": "try_send_realtime", "h": 0}, {"op": "send_timeout", "h": 0, "d": 0},
+                                      {"op": "send", "h": 0}, {"op": "try_send_option", "h": 0}]
+                                for i in range(len(left)):
+                                    m += 1
+                                    o = dict(sv[(nvar + i) % len(sv)])
+                                    o["m"] = m
+                                    ops.append(o)
+                                    if i == 0:
+                                        ops += [{"op": "poll", "f": f, "w": 2} for f in left]
+                            ops += [{"op": "poll", "f": f, "w": 2} for f in left]
+                            ops += [{"op": "len", "h": 1}, {"op": "try_recv", "h": 1}, {"op": "try_send", "h": 0, "m": m + 1}, {"op": "try_recv", "h": 1},
+                                    {"op": "len", "h": 0}]
+                            yield {"cap": cap, "payload": ["w1", "b3", "h4", "u8"][nvar % 4], "execs": 1,
+                                   "procs": [{"phase": 0, "handles": [flav[0] + "s", flav[1] + "r"], "ops": ops}]}
+
+
 HANDLE_MUT = ["clone", "clone_sync", "clone_async", "to_sync", "to_async", "drop", "drop_old"]
 
 
